@@ -117,9 +117,15 @@ pub fn gen_mirror_graph(rng: &mut crate::rng::Rng, pairs: usize) -> GraphData {
     let mut cands: Vec<usize> = (0..pairs).collect();
     rng.shuffle(&mut cands);
     for p in cands.into_iter().take(k) {
-        g.inits.push(2 * p as u32);
-        if rng.pct(60) {
-            g.inits.push(2 * p as u32 + 1);
+        // either member of the pair, or both: an initial state need not be its own
+        // representative (the representative is the even member)
+        match rng.below(10) {
+            0..=2 => g.inits.push(2 * p as u32),
+            3..=5 => g.inits.push(2 * p as u32 + 1),
+            _ => {
+                g.inits.push(2 * p as u32);
+                g.inits.push(2 * p as u32 + 1);
+            }
         }
     }
     g
